@@ -323,6 +323,10 @@ def run(ck):
             rt.guard(ck, oracle_convert, ck, path)
             rt.guard(ck, oracle_convert_history, ck, path)
             rt.guard(ck, oracle_strided, ck, path)
+        # dtype conversions of a module whose state came from another instance (load_state_dict): the conversion converts the
+        # CURRENT state, it does not re-derive anything from construction time
+        from .. import adoption
+        rt.guard(ck, adoption.run, ck, ('load-double', 'f32-double-load'))
     finally:
         torch.set_default_dtype(old)
 
